@@ -313,6 +313,20 @@ def event_text(ev) -> str:
     return f'note:{ev[1]}'
 
 
+def event_key(ev) -> str:
+    kind = ev[0]
+    if kind in ('ctor', 'upd', 'dec'):
+        return str(ev[1])
+    return 's' if kind == 'sub' else 'n'
+
+
+def events_text(evs) -> str:
+    """events grouped by object (stable), same canonical order as Drv.showEvents"""
+    if not evs:
+        return '-'
+    return ';'.join(event_text(e) for e in sorted(evs, key=event_key))
+
+
 def table_text(events) -> str:
     ent = []
     seen = set()
@@ -346,7 +360,7 @@ def run_history(dec, rec: Recorder, syndromes, check_inputs=True):
         if check_inputs and not (np.asarray(s).shape == s_before.shape and np.array_equal(np.asarray(s), s_before)):
             res += ' INPUT-MODIFIED'
         evs = rec.events[i0:]
-        texts.append((';'.join(event_text(e) for e in evs) if evs else '-') + '=>' + res)
+        texts.append(events_text(evs) + '=>' + res)
     return texts, results
 
 
@@ -639,6 +653,9 @@ def oracle_cases(ctx, deep):
     # evaluated on every run so that the KNOWN-FINDING line is always printed
     cases.append({'decoder': 'UnionFindDecoder', 'code': 'Toric2DCode', 'size': [2, 2],
                   'direction': [0.25, 0.25, 0.5], 'p': 0.125, 'errors': [[[0], []]], 'kind': 'corpus-D15'})
+    # corpus: smallest witness of known finding D16 (XCube matching on a lattice that is not Lx <= Ly <= Lz)
+    cases.append({'decoder': 'XCubeMatchingDecoder', 'code': 'XCubeCode', 'size': [3, 2, 2],
+                  'direction': [0.25, 0.25, 0.5], 'p': 0.125, 'errors': [[[0], []]], 'kind': 'corpus-D16'})
     # exhaustive syndromes on tiny codes: one representative error per syndrome
     for cname, size in TINY:
         code = make_code(cname, size)
@@ -727,9 +744,16 @@ def shrink(case):
     return case
 
 
+def shape_of(size):
+    size = list(size)
+    if len(set(size)) == 1:
+        return 'cubic'
+    return 'ascending' if size == sorted(size) else 'other'
+
+
 def match_key(c):
     return {'decoder': c['decoder'], 'code': c['code'], 'code_deformation': c.get('code_deformation'),
-            'size_class': 'min-side-2' if min(c['size']) <= 2 else 'min-side>=3'}
+            'size_class': 'min-side-2' if min(c['size']) <= 2 else 'min-side>=3', 'shape': shape_of(c['size'])}
 
 
 def oracle(ctx, deep=False, broken=None):
